@@ -311,38 +311,68 @@ pub fn run(ctx: &Ctx) -> Report {
     let flip_bodies: Vec<Vec<u8>> = vec![b"a=1&b=2".to_vec(), b"x".to_vec(), (0..=255u8).collect(), "ü=%zz&€".as_bytes().to_vec()];
     let flip_cts: Vec<Option<&[u8]>> = vec![None, Some(b"application/x-www-form-urlencoded"), Some(b"text/plain"), Some(b"application/x-www-form-urlencoded2")];
     let mut flips: Vec<(WireReq, Cfg, String)> = Vec::new();
-    for body in &flip_bodies {
+    // a payload digest declared by the client (as S3 clients do) never stands in for hashing the delivered body
+    let declared: Vec<(&str, bool)> = vec![("none", false), ("digest", true), ("digest", false), ("UNSIGNED-PAYLOAD", true)];
+    for (bi, body) in flip_bodies.iter().enumerate() {
         for ct in &flip_cts {
-            for fold in [false, true] {
-                let is_form = matches!(ct, Some(c) if *c == b"application/x-www-form-urlencoded");
-                if fold && is_form {
-                    continue; // folding applies: the body is not hashed
-                }
-                let mut plan = e2e::base_plan(Carrier::Header);
-                plan.method = "PUT".into();
-                plan.body = body.clone();
-                if let Some(c) = ct {
-                    plan.headers.push(("Content-Type".into(), c.to_vec()));
-                    plan.signed.push("content-type".into());
-                }
-                let built = build(&plan);
-                let w = WireReq::from_wire(&built.wire);
-                let mut cfg = Cfg::basic(now);
-                cfg.fold = fold;
-                for i in 0..body.len() {
-                    for bit in 0..8 {
-                        let mut m = w.clone();
-                        m.body[i] ^= 1 << bit;
-                        flips.push((m, cfg.clone(), format!("body[{}]^bit{}", i, bit)));
+            for opt in 0..4u8 {
+                for (decl, decl_signed) in &declared {
+                    let (fold, s3) = (opt & 2 == 2, opt & 1 == 1);
+                    if *decl != "none" && bi >= 2 && !s3 {
+                        continue; // keep the product small: declared digests on the long bodies only in S3 mode
                     }
+                    let is_form = matches!(ct, Some(c) if *c == b"application/x-www-form-urlencoded");
+                    let mut plan = e2e::base_plan(Carrier::Header);
+                    plan.method = "PUT".into();
+                    plan.body = body.clone();
+                    if let Some(c) = ct {
+                        plan.headers.push(("Content-Type".into(), c.to_vec()));
+                        plan.signed.push("content-type".into());
+                    }
+                    match *decl {
+                        "none" => {}
+                        "digest" => plan.headers.push(("X-Amz-Content-Sha256".into(), refmodel::hex_lower(&refmodel::hmac::sha256(body)).into_bytes())),
+                        other => plan.headers.push(("X-Amz-Content-Sha256".into(), other.as_bytes().to_vec())),
+                    }
+                    if *decl != "none" && *decl_signed {
+                        plan.signed.push("x-amz-content-sha256".into());
+                    }
+                    let mut cfg = Cfg::basic(now);
+                    cfg.fold = fold;
+                    cfg.s3 = s3;
+                    if fold && is_form {
+                        // folding applies: the body is not hashed; only the unchanged request is of interest here
+                        if bi >= 2 {
+                            continue;
+                        }
+                        plan.body_params = Some(if bi == 0 { vec![(b"a".to_vec(), b"1".to_vec()), (b"b".to_vec(), b"2".to_vec())] } else { vec![(b"x".to_vec(), b"".to_vec())] });
+                        let w = WireReq::from_wire(&build(&plan).wire);
+                        flips.push((w, cfg.clone(), "unchanged".into()));
+                        continue;
+                    }
+                    let built = build(&plan);
+                    let w = WireReq::from_wire(&built.wire);
+                    for i in 0..body.len() {
+                        for bit in 0..8 {
+                            let mut m = w.clone();
+                            m.body[i] ^= 1 << bit;
+                            flips.push((m, cfg.clone(), format!("body[{}]^bit{}", i, bit)));
+                        }
+                    }
+                    let mut m = w.clone();
+                    m.body.push(b'&');
+                    flips.push((m, cfg.clone(), "append".into()));
+                    let mut m = w.clone();
+                    m.body.pop();
+                    flips.push((m, cfg.clone(), "truncate".into()));
+                    let mut m = w.clone();
+                    m.body = b"another body altogether".to_vec();
+                    flips.push((m, cfg.clone(), "replaced".into()));
+                    let mut m = w.clone();
+                    m.body.clear();
+                    flips.push((m, cfg.clone(), "emptied".into()));
+                    flips.push((w.clone(), cfg.clone(), "unchanged".into()));
                 }
-                let mut m = w.clone();
-                m.body.push(b'&');
-                flips.push((m, cfg.clone(), "append".into()));
-                let mut m = w.clone();
-                m.body.pop();
-                flips.push((m, cfg.clone(), "truncate".into()));
-                flips.push((w.clone(), cfg.clone(), "unchanged".into()));
             }
         }
     }
@@ -353,11 +383,14 @@ pub fn run(ctx: &Ctx) -> Report {
         let case = Case { wire: w.clone(), cfg: cfg.clone(), prov: ProvSpec::standard() };
         let before = st.violations.len();
         let j = e2e::judge_into(base3 + i, &case, st);
-        st.nontrivial(&(&case.wire, cfg.fold, "flip"));
+        st.nontrivial(&(&case.wire, cfg.fold, cfg.s3, "flip"));
         if st.violations.len() > before {
             if let Some(v) = st.violations.last_mut() {
                 v.what = format!("body-byte-not-covered:{}:{}", label, v.what);
             }
+        }
+        if label == "unchanged" && !j.reference.accepted() {
+            crate::core::machinery_error(&format!("C12 (3): the reference refuses its own request: {:?}", j.reference.error));
         }
         if label != "unchanged" && j.sut.is_ok() && st.violations.len() == before {
             st.violation(Violation {
@@ -397,7 +430,7 @@ pub fn run(ctx: &Ctx) -> Report {
     Report {
         stats: st,
         rule: format!(
-            "(1) every URL parameter list x every body parameter list, each of 0..2 (thorough: 0..3) pairs over names {{a,b}} x values {{1,2,empty}} (all same-name-in-both patterns) x {} content-type spellings (absent, exact, charset utf-8/UTF-8/utf8, extra parameter, valueless charset, iso-8859-1, bogus, case variant, longer type, text/plain, json, two headers in both orders, padded) x {{fold off, fold on, fold on + S3}} x carrier; each case signed two ways — F (body parameters as if appended to the URL, payload = empty) and V (URL only, payload = body) — and both judged by the reference verifier; returned body / URI compared with the statement; F and V never both accepted unless identical; (2) 133 undecodable bodies and 3 unknown charset labels x 3 bodies => InvalidBodyEncoding/400 with the provider untouched; (3) where folding does not apply, every single-bit flip of every body byte (4 bodies incl. all 256 byte values), an append and a truncation are refused. states = distinct reference canonical requests",
+            "(1) every URL parameter list x every body parameter list, each of 0..2 (thorough: 0..3) pairs over names {{a,b}} x values {{1,2,empty}} (all same-name-in-both patterns) x {} content-type spellings (absent, exact, charset utf-8/UTF-8/utf8, extra parameter, valueless charset, iso-8859-1, bogus, case variant, longer type, text/plain, json, two headers in both orders, padded) x {{fold off, fold on, fold on + S3}} x carrier; each case signed two ways — F (body parameters as if appended to the URL, payload = empty) and V (URL only, payload = body) — and both judged by the reference verifier; returned body / URI compared with the statement; F and V never both accepted unless identical; (2) 133 undecodable bodies and 3 unknown charset labels x 3 bodies => InvalidBodyEncoding/400 with the provider untouched; (3) where folding does not apply — under {{default, S3, fold, S3+fold}}, with no / a signed / an unsigned X-Amz-Content-Sha256 header carrying the digest of the signed body, or UNSIGNED-PAYLOAD — every single-bit flip of every body byte (4 bodies incl. all 256 byte values), an append, a truncation, a replacement and an emptied body are refused, and the unchanged request (also the folded one, whose declared digest is not that of an empty body) is accepted. states = distinct reference canonical requests",
             n_ct
         ),
         bounds: json!({"url_lists": n_lists, "body_lists": n_lists, "content_types": n_ct, "bit_flip_cases": n3}),
